@@ -87,6 +87,11 @@ def corrupt(rnd, cmd, props, names, inflight, owner_mode):
         # `waiting` given as something else than a JSON boolean
         props['waiting'] = rnd.choice([0, 1, '', 'no', 'x', 'true', None, [], 2.5])
         return cmd, props, ['odd_waiting']
+    if rnd.random() < .06:
+        # the `properties` member itself is not a JSON object
+        bad = rnd.choice([[], '', 'x', [1], 0, None, True, [props], json.dumps(props)])
+        raw = json.dumps({'id': 'RAW', 'command': cmd, 'properties': bad})
+        return cmd, raw.encode('latin1'), ['illtyped_properties']
     if rnd.random() < .12:
         # left as it is: a well-formed request may still be refused (conflict, a hook's veto, ...) and the same
         # rule applies to it
@@ -282,6 +287,8 @@ def _world(w, h, rnd, reqs, res, done):
             if before != after:
                 diff = _diff(before, after)
                 mech = 'other'
+                if 'illtyped_properties' in ops:
+                    mech = 'the-properties-member-is-not-an-object'
                 if cmd == 'set' and isinstance(props, dict) and isinstance(props.get('options'), dict):
                     # is the change confined to the options / hooks of the addressed watcher?
                     b2, a2 = copy.deepcopy(before), copy.deepcopy(after)
